@@ -182,6 +182,74 @@ func runC02(c *Ctx) {
 		}
 	}
 
+	deleteCondTable(c, a, "C02.del-cond")
+	deleteHonoursCondition(c, "C02.del-honoured")
+}
+
+// deleteHonoursCondition: in ctree.internalDelete the leaf arm removes only when condition(value) is true.
+func deleteHonoursCondition(c *Ctx, rule string) {
+	P := c.P
+	id := P.Method("ctree", "Tree", "internalDelete")
+	if id == nil {
+		c.Unresolved(rule, "ctree.(*Tree).internalDelete")
+		return
+	}
+	c.Analysed(fnName(id))
+	if len(id.Params) < 4 {
+		c.Unresolved(rule, "ctree.(*Tree).internalDelete parameters (subpath, condition, f, …)")
+		return
+	}
+	condP, fP := ssa.Value(id.Params[2]), ssa.Value(id.Params[3])
+	isCond := func(ev *Ev) bool { return strings.HasPrefix(ev.Label, "call:dyn:") && ev.Fn.V == condP }
+	isF := func(ev *Ev) bool { return strings.HasPrefix(ev.Label, "call:dyn:") && ev.Fn.V == fP }
+	n := 0
+	for _, condVal := range []bool{false, true} {
+		e := &PPA{
+			Cond: func(e *PPA, st *State, rv RV) (bool, bool) {
+				if call, ok := rv.V.(*ssa.Call); ok && call.Call.Value == condP {
+					return condVal, true
+				}
+				return false, false
+			},
+			Watch: func(ev *Ev) bool {
+				return isCond(ev) || isF(ev) || ev.Label == "builtin:delete" || ev.Label == "call:(*ctree.Tree).internalDelete"
+			},
+		}
+		e.Run(id)
+		c.Paths += len(e.Paths)
+		c.Scen++
+		for i := range e.Paths {
+			p := &e.Paths[i]
+			if p.End != "return" || !p.Has(isCond) {
+				continue
+			}
+			n++
+			calledF := p.Has(isF)
+			ret := -1
+			if len(p.Rets) > 0 {
+				if b, ok := constBool(p.Rets[0].V); ok {
+					ret = 0
+					if b {
+						ret = 1
+					}
+				}
+			}
+			want := 0
+			if condVal {
+				want = 1
+			}
+			ok := calledF == condVal && ret == want && p.Index(0, isF) != 0 && (!calledF || p.Index(0, isCond) < p.Index(0, isF))
+			c.Check(ok, rule, fnName(id), fmt.Sprintf("leaf arm, condition=%v", condVal), P.Pos(id.Pos()),
+				fmt.Sprintf("f called=%v, reports deleted=%d; path: %s", calledF, ret, p.String()))
+		}
+	}
+	c.Floor(rule, n, 2)
+}
+
+// deleteCondTable evaluates the condition closure handed to ctree.WalkDeleted by gnmiRemove at
+// stored <, =, > delete timestamp (shared by C02 and C01).
+func deleteCondTable(c *Ctx, a *cacheAnchors, rule string) {
+	P := c.P
 	// ---- delete condition closure
 	{
 		found := 0
@@ -195,7 +263,7 @@ func runC02(c *Ctx) {
 			}
 			mc, ok := unwrap(args[2]).(*ssa.MakeClosure)
 			if !ok {
-				c.Unknown("C02.del-cond", fnName(a.gnmiRemove), "condition argument of WalkDeleted", P.Pos(ci.Pos()), "condition is not a function literal: "+Expr(args[2]))
+				c.Unknown(rule, fnName(a.gnmiRemove), "condition argument of WalkDeleted", P.Pos(ci.Pos()), "condition is not a function literal: "+Expr(args[2]))
 				continue
 			}
 			found++
@@ -274,74 +342,13 @@ func runC02(c *Ctx) {
 					if len(p.RetB) == 1 {
 						got = p.RetB[0]
 					}
-					c.Check(got == want, "C02.del-cond", fnName(cf), name, P.Pos(cf.Pos()), fmt.Sprintf("condition returns %d (1=true,0=false,-1=undetermined), want %d", got, want))
+					c.Check(got == want, rule, fnName(cf), name, P.Pos(cf.Pos()), fmt.Sprintf("condition returns %d (1=true,0=false,-1=undetermined), want %d", got, want))
 				}
 				if n == 0 {
-					c.Unknown("C02.del-cond", fnName(cf), name, P.Pos(cf.Pos()), "no returning path")
+					c.Unknown(rule, fnName(cf), name, P.Pos(cf.Pos()), "no returning path")
 				}
 			}
 		}
-		c.Floor("C02.del-cond", found, 1)
+		c.Floor(rule, found, 1)
 	}
-	deleteHonoursCondition(c, "C02.del-honoured")
-}
-
-// deleteHonoursCondition: in ctree.internalDelete the leaf arm removes only when condition(value) is true.
-func deleteHonoursCondition(c *Ctx, rule string) {
-	P := c.P
-	id := P.Method("ctree", "Tree", "internalDelete")
-	if id == nil {
-		c.Unresolved(rule, "ctree.(*Tree).internalDelete")
-		return
-	}
-	c.Analysed(fnName(id))
-	if len(id.Params) < 4 {
-		c.Unresolved(rule, "ctree.(*Tree).internalDelete parameters (subpath, condition, f, …)")
-		return
-	}
-	condP, fP := ssa.Value(id.Params[2]), ssa.Value(id.Params[3])
-	isCond := func(ev *Ev) bool { return strings.HasPrefix(ev.Label, "call:dyn:") && ev.Fn.V == condP }
-	isF := func(ev *Ev) bool { return strings.HasPrefix(ev.Label, "call:dyn:") && ev.Fn.V == fP }
-	n := 0
-	for _, condVal := range []bool{false, true} {
-		e := &PPA{
-			Cond: func(e *PPA, st *State, rv RV) (bool, bool) {
-				if call, ok := rv.V.(*ssa.Call); ok && call.Call.Value == condP {
-					return condVal, true
-				}
-				return false, false
-			},
-			Watch: func(ev *Ev) bool {
-				return isCond(ev) || isF(ev) || ev.Label == "builtin:delete" || ev.Label == "call:(*ctree.Tree).internalDelete"
-			},
-		}
-		e.Run(id)
-		c.Paths += len(e.Paths)
-		c.Scen++
-		for i := range e.Paths {
-			p := &e.Paths[i]
-			if p.End != "return" || !p.Has(isCond) {
-				continue
-			}
-			n++
-			calledF := p.Has(isF)
-			ret := -1
-			if len(p.Rets) > 0 {
-				if b, ok := constBool(p.Rets[0].V); ok {
-					ret = 0
-					if b {
-						ret = 1
-					}
-				}
-			}
-			want := 0
-			if condVal {
-				want = 1
-			}
-			ok := calledF == condVal && ret == want && p.Index(0, isF) != 0 && (!calledF || p.Index(0, isCond) < p.Index(0, isF))
-			c.Check(ok, rule, fnName(id), fmt.Sprintf("leaf arm, condition=%v", condVal), P.Pos(id.Pos()),
-				fmt.Sprintf("f called=%v, reports deleted=%d; path: %s", calledF, ret, p.String()))
-		}
-	}
-	c.Floor(rule, n, 2)
 }
